@@ -18,6 +18,7 @@ structure PI (a : G) (st : PatonSt) (nt : List (Nat × Nat)) : Prop where
   ntrm : ∀ e ∈ nt, e ∈ st.removed
   trm : ∀ x, x < a.n → inTree st.T x → x ≠ 0 → (x, par st.T x) ∈ st.removed
   ntt : ∀ e ∈ nt, ∀ x, x < a.n → inTree st.T x → x ≠ 0 → e ≠ (x, par st.T x)
+  rcov : ∀ e ∈ st.removed, e ∈ nt ∨ ∃ x, x < a.n ∧ inTree st.T x ∧ x ≠ 0 ∧ e = (x, par st.T x)
 
 theorem mem_sortInts' {l : List Nat} {x : Nat} : x ∈ sortInts l ↔ x ∈ l := by
   unfold sortInts; exact (List.mergeSort_perm l _).mem_iff
@@ -64,7 +65,14 @@ theorem patonStep_indep {v u : Nat} {st s1 : PatonSt} {nt : List (Nat × Nat)} (
       fun x hx ht h0 => (inv.pdep x hx ht h0).1
     have hkd : dep st.depth ((par st.T)^[k] v) + k = dep st.depth v := by rw [hk1]; exact hk2
     refine ⟨nt ++ [(u, v)], ?_⟩
-    refine { fnt := ?_, ntnd := ?_, ntrm := ?_, trm := ?_, ntt := ?_ }
+    refine { fnt := ?_, ntnd := ?_, ntrm := ?_, trm := ?_, ntt := ?_, rcov := ?_ }
+    rotate_right
+    · intro e he
+      rcases List.mem_cons.1 he with rfl | he
+      · exact .inl (by simp)
+      · rcases pi.rcov e he with h | h
+        · exact .inl (List.mem_append.2 (.inl h))
+        · exact .inr h
     · refine List.rel_append pi.fnt (List.Forall₂.cons ?_ List.Forall₂.nil)
       constructor
       · rw [mem_sortInts']; simp
@@ -115,7 +123,21 @@ theorem patonStep_indep {v u : Nat} {st s1 : PatonSt} {nt : List (Nat × Nat)} (
       unfold par; rw [hT']; simp
     have hne_u : ∀ x, inTree st.T x → x ≠ u := fun x hx h0 => hnotin (h0 ▸ hx)
     refine ⟨nt, ?_⟩
-    refine { fnt := ?_, ntnd := pi.ntnd, ntrm := ?_, trm := ?_, ntt := ?_ }
+    have hu0 : u ≠ 0 := by
+      intro h0; subst h0
+      apply hnotin; unfold inTree; rw [inv.root]; omega
+    refine { fnt := ?_, ntnd := pi.ntnd, ntrm := ?_, trm := ?_, ntt := ?_, rcov := ?_ }
+    rotate_right
+    · intro e he
+      rcases List.mem_cons.1 he with rfl | he
+      · exact .inr ⟨u, hun, (hin' u).2 (.inl rfl), hu0, by
+          show (u, v) = (u, par (st.T.set u (v : Int) huT) u)
+          rw [hparu]⟩
+      · rcases pi.rcov e he with h | ⟨x, hx, ht, hx0, hex⟩
+        · exact .inl h
+        · exact .inr ⟨x, hx, (hin' x).2 (.inr ht), hx0, by
+            show e = (x, par (st.T.set u (v : Int) huT) x)
+            rw [hpar' x (hne_u x ht)]; exact hex⟩
     · refine pi.fnt.imp ?_
       rintro f e ⟨h1, h2⟩
       refine ⟨h1, fun c hc => ?_⟩
